@@ -33,6 +33,15 @@ Fixpoint spec_node (dirs : list str) (n : node) : list (list str * fn_def) :=
       then map (fun f => (dirs ++ [name], f)) (top_level_annotated items) else []
   | NFile _ _ => []
   | NDir name ch => flat_map (spec_node (dirs ++ [name])) ch
+  (* an entry named stem.rs that is a symbolic link to a regular file IS an .rs file under the
+     project path (it is one for every program that opens it); its place is that of the link *)
+  | NLink name (LFile (Parsed items)) =>
+      if rs_name name && negb (existsb excluded_dir dirs)
+      then map (fun f => (dirs ++ [name], f)) (top_level_annotated items) else []
+  (* under the project path, recursively = the directory tree proper: a link to a directory is
+     not a directory of the tree (following it could leave the project or loop), a dangling
+     link is no file *)
+  | NLink _ _ => []
   end.
 Definition spec_nodes (dirs : list str) (l : layout) := flat_map (spec_node dirs) l.
 (* every (file components, function) that must get exactly one wrapper *)
@@ -58,13 +67,14 @@ Definition spec_files (files : list (list str * content)) : list (list str * fn_
 Definition slash_free (s : str) : bool := negb (existsb (Ascii.eqb slash) s).
 Definition name_ok (s : str) : bool :=
   slash_free s && negb (str_eqb s []) && negb (seg_is "." s) && negb (seg_is ".." s).
-Definition node_name (n : node) : str := match n with NFile s _ => s | NDir s _ => s end.
+Definition node_name (n : node) : str := match n with NFile s _ => s | NDir s _ => s | NLink s _ => s end.
 Fixpoint nodup_b (l : list str) : bool :=
   match l with [] => true | x :: r => negb (existsb (str_eqb x) r) && nodup_b r end.
 Fixpoint node_ok (n : node) : bool :=
   match n with
   | NFile name _ => name_ok name
   | NDir name ch => name_ok name && forallb node_ok ch && nodup_b (map node_name ch)
+  | NLink name _ => name_ok name
   end.
 Definition layout_ok (l : layout) : bool := forallb node_ok l && nodup_b (map node_name l).
 
